@@ -378,6 +378,16 @@ FN[r'rcu_list::(const_)?iterator::op_inc'] = dict(
     ensures=[('C12 C14', 'self->m_current == vf_mid.next.v && g_atomic_ops == 1 && !vf_exc && __CPROVER_return_value == self', 'advances with one atomic load of next'),
              ('C14', NOBLOCK, 'no lock, no wait')],
     assigns='*self, ' + RG)
+FN.setdefault(r'rcu_list::(const_)?iterator::op_inc', [])
+if not isinstance(FN[r'rcu_list::(const_)?iterator::op_inc'], list):
+    FN[r'rcu_list::(const_)?iterator::op_inc'] = [FN[r'rcu_list::(const_)?iterator::op_inc']]
+FN[r'rcu_list::(const_)?iterator::op_inc'].append(dict(
+    props='C12 C14', setup=IT_SETUP, optional=True, inline_callees=True,
+    where=lambda fm: fm['cname'].endswith('__int'),
+    requires=['self->m_current == &vf_mid && vf_ret != self && ' + FRESH + ' && !vf_exc && ' + R3],
+    ensures=[('C12 C14', 'self->m_current == vf_mid.next.v && vf_ret->m_current == &vf_mid && g_atomic_ops == 1 && !vf_exc', 'post-increment advances by one atomic load of next and returns the old position'),
+             ('C14', NOBLOCK, 'no lock, no wait')],
+    assigns='*self, *vf_ret, ' + RG))
 FN[r'rcu_list::(const_)?iterator::(op_deref|op_arrow)'] = dict(
     props='C12 C14', setup=IT_SETUP, loop_free=True,
     requires=['self->m_current == &vf_mid && !vf_exc'],
